@@ -31,10 +31,13 @@ type simpleCache struct {
 
 func (s *simpleCache) ShallowClone() ResolutionCache {
 	store := make(map[string]interface{}, len(s.store))
+	verifGate("clone.pre", s, "")
 	s.lock.RLock()
+	verifGate("clone.in", s, "")
 	for k, v := range s.store {
 		store[k] = v
 	}
+	verifGate("clone.out", s, "")
 	s.lock.RUnlock()
 
 	return &simpleCache{
@@ -44,17 +47,23 @@ func (s *simpleCache) ShallowClone() ResolutionCache {
 
 // Get retrieves a cached URI
 func (s *simpleCache) Get(uri string) (interface{}, bool) {
+	verifGate("get.pre", s, uri)
 	s.lock.RLock()
+	verifGate("get.in", s, uri)
 	v, ok := s.store[uri]
 
+	verifGate("get.out", s, uri)
 	s.lock.RUnlock()
 	return v, ok
 }
 
 // Set caches a URI
 func (s *simpleCache) Set(uri string, data interface{}) {
+	verifGate("set.pre", s, uri)
 	s.lock.Lock()
+	verifGate("set.in", s, uri)
 	s.store[uri] = data
+	verifGate("set.out", s, uri)
 	s.lock.Unlock()
 }
 
@@ -76,6 +85,7 @@ var (
 
 // initResolutionCache initializes the URI resolution cache. To be wrapped in a sync.Once.Do call.
 func initResolutionCache() {
+	verifGate("init.in", nil, "")
 	resCache = defaultResolutionCache()
 }
 
